@@ -92,6 +92,28 @@ Theorem depth_guard_accepts_within_limit : forall t maxd depth,
 Proof. exact guarded_descent_accepts. Qed.
 Print Assumptions depth_guard_accepts_within_limit.
 
+(* ---- object stream index (ObjectStreamDict.IndexedObject, reached from xref stream type 2 entries) ---- *)
+
+(* The guard accepts exactly the indexes inside [0, len) of a non-nil array ... *)
+Theorem indexed_object_guard_exact : forall arr_nil len index,
+  indexed_ok arr_nil len index = true <-> arr_nil = false /\ (0 <= index < len)%Z.
+Proof. exact indexed_ok_spec. Qed.
+Print Assumptions indexed_object_guard_exact.
+
+(* ... so the slice access behind it is in bounds for EVERY int index, including the negative values
+   that an 8 byte wide xref stream field with its top bit set decodes to. *)
+Theorem indexed_object_in_bounds : forall (A : Type) (arr : list A) index,
+  indexed_ok false (Z.of_nat (length arr)) index = true ->
+  exists x, nth_error arr (Z.to_nat index) = Some x.
+Proof. exact indexed_ok_in_bounds. Qed.
+Print Assumptions indexed_object_in_bounds.
+
+Example C08_wide_field_example :
+  buf_to_int64 [128; 0; 0; 0; 0; 0; 0; 0]%N = (-9223372036854775808)%Z
+  /\ indexed_ok false 4 (buf_to_int64 [128; 0; 0; 0; 0; 0; 0; 0]%N) = false
+  /\ buf_to_int64 [255; 255]%N = 65535%Z.
+Proof. exact buf_top_bit_negative. Qed.
+
 (* ---- the object parser (ParseObjectContext / parseObjectContext / parseArray / parseDict) ---- *)
 
 (* For ALL byte strings, all limits and start levels, and whatever the token-level readers do: no call
